@@ -4,6 +4,7 @@ package main
 // go-inlined), registry writes and grow checks, call-frame pushes, emission sites in the compiler.
 
 import (
+	"go/ast"
 	"go/token"
 	"go/types"
 
@@ -229,4 +230,39 @@ func condNonNil(conds []Cond, v ssa.Value) bool {
 		}
 	}
 	return false
+}
+
+// isNewHelper: a repository function the frozen baseline (baseline_funcs.txt) does not know — a helper
+// some edit extracted. Where the source inliner could not put it back (normalize.go), presence rules
+// look through it with reachesThroughNewHelpers.
+func isNewHelper(fn *ssa.Function) bool {
+	if fn == nil || fn.Pkg == nil || !repoPkg(fn.Pkg.Pkg.Path()) || fn.Parent() != nil {
+		return false
+	}
+	fd, ok := fn.Syntax().(*ast.FuncDecl)
+	if !ok {
+		return false
+	}
+	return !baselineFuncs[declKey(fn.Pkg.Pkg.Path(), fd)]
+}
+
+// reachesThroughNewHelpers: fn calls callee itself, or calls (to depth 3) a new helper that does.
+func reachesThroughNewHelpers(fn *ssa.Function, callee *ssa.Function) bool {
+	var rec func(f *ssa.Function, d int) bool
+	rec = func(f *ssa.Function, d int) bool {
+		if len(callsTo(f, callee)) > 0 {
+			return true
+		}
+		if d >= 3 {
+			return false
+		}
+		found := false
+		allInstrs(f, func(in ssa.Instruction) {
+			if sc := staticCallee(in); !found && sc != nil && sc != f && isNewHelper(sc) && rec(sc, d+1) {
+				found = true
+			}
+		})
+		return found
+	}
+	return callee != nil && rec(fn, 0)
 }
